@@ -10,32 +10,40 @@
     a value the specification does not encode (integer out of range, illegal size, unset CHOICE, open type not matching
     its identifier …) is not put on the wire. Both for EVERY schema passing the decidable `specOK` (decided for the
     regenerated NGAP schema by the kernel), every type / parameter string passing `tyParamsOK`, every `regular` value.
-  * NOT proved: completeness (the model never refuses a value the specification encodes); it is exercised by the
-    differential run only. Stated as `EncodeCompleteStatement`.
+  * `encode_complete` / `C03_encodes_conforming`: conversely the model encodes (with the same bits) every regular value the
+    specification encodes, for schemas that pass `specOKc` in addition; together: `encode_iff`, `C03_encode_iff`
+    (`marshal … = .ok bs ↔ Spec.X691.encodePdu … = some bs`).
   * Hypotheses the proofs forced (each one is a place where marshal.go and X.691 disagree outside it):
     schema side (`specOK`, all hold of the NGAP schema — `ngap_schema_specOK`):
       - INTEGER: both bounds or none (the library's semi-constrained form is not X.691's); a range above 64K starts at 0
         (the octet count is taken from the value, not from value − lb) and ends below 2^63;
       - ENUMERATED: lower bound 0 (the library encodes the value, X.691 the index);
-      - strings: 0 ≤ lb ≤ ub; SIZE(lb..MAX) only with lb = 0 (the library writes length − lb there);
+      - strings: 0 ≤ lb ≤ ub; SIZE(lb..MAX) only with lb = 0 (the library writes length − lb there); a constrained
+        size (ub < 64K) spans fewer than 16K values (the library's loop would fragment a constrained length of 16K or
+        more, X.691 11.9.3.3 does not; NGAP's largest such span is 9600);
       - SEQUENCE OF: a lower bound whenever there is an upper bound, lb < 64K, ub ≥ 64K only without extension marker;
       - CHOICE: `valueUB` = #alternatives − 1 with at least two alternatives (one alternative: the library writes a bit,
         X.691 nothing) — or no `valueUB`, then the library refuses everything (PrivateIEID, finding F21);
       - open type: every alternative has a non-empty encoding (empty: X.691 wants one zero octet, the library writes none).
+    schema side, for completeness only (`specOKc`, holds of the NGAP schema — `ngap_schema_specOKc`):
+      - INTEGER bounds ordered (lb ≤ ub); at most 65536 root enumerations / CHOICE alternatives (the library's constrained
+        form ends at 64K); the component governing an open type precedes it (`getReferenceFieldValue` looks at earlier
+        fields only).
     value side (`regular`; excludes no value a Go program can build from well-formed ngapType structs except as stated):
       - INTEGER values are int64 (always true in Go);
       - a BitString's `Bytes` has exactly ⌈BitLength/8⌉ octets (longer slices are legal Go values: the library ignores the
         excess, the specification here is stated on the regular representation);
-      - a CHOICE struct has only the selected alternative non-nil (a second non-nil pointer is ignored by the library);
-      - unfragmented: every string shorter than 16384 units and every open-type content shorter than 16384 octets
-        (the property separates fragmentation; it cannot be stated on the size of the output: a 65536-octet string
-        is encoded as a length-0 string by the loop).
+      - a CHOICE struct has only the selected alternative non-nil (a second non-nil pointer is ignored by the library).
+      (No bound on lengths: strings and open-type contents of 16K items or more are covered — `Spec.X691.lengthAndItems`
+      is the fragmented form of X.691 11.9.3.8 and the encoder model is marshal.go after the repair of F36,
+      `length_fragmented_eq`. A SEQUENCE OF whose count is a general length of 16384 or more is refused by the library and
+      not encoded by the specification (no NGAP list can be that long except UEAssociatedLogicalNGConnectionList 1..65536).)
 -/
 import Stgutg.Model.AperEnc
 import Stgutg.Spec.X691
 import Stgutg.Spec.Ts38413Leaf
 import Stgutg.Gen.NgapSchema
-import Stgutg.Proofs.AperSpecComp
+import Stgutg.Proofs.AperSpecTotal
 
 namespace Stgutg.Props.C03
 open Stgutg Stgutg.Aper Stgutg.Proofs.AperSpec
@@ -80,11 +88,33 @@ theorem length_constrained_eq (pos n lb u : Nat) (b : Bits) (hl : lb ≤ n) (hu 
     Spec.X691.lengthDeterminant pos n lb (some u) = some b :=
   length_fwd_con pos n lb u b hl hu hlu hu64 h
 
-/-- 13 INTEGER (int64 values; both bounds or none; a range above 64K starts at 0 and ends below 2^63) -/
+/-- from "what the model writes is the specification's" and "the model does not fail where the specification encodes" -/
+theorem iff_of_fwd_total {m : Res Bits} {s : Option Bits} (fwd : ∀ b, m = .ok b → s = some b)
+    (tot : ∀ b, s = some b → ∃ b', m = .ok b') (b : Bits) : m = .ok b ↔ s = some b := by
+  constructor
+  · exact fwd b
+  · intro hs
+    obtain ⟨b', hb'⟩ := tot b hs
+    have := fwd b' hb'
+    rw [hs] at this
+    simp only [Option.some.injEq] at this
+    rw [hb', this]
+
+/-- 13 INTEGER (int64 values; both bounds or none, ordered; a range above 64K starts at 0 and ends below 2^63):
+    same domain, same bits -/
 theorem integer_eq (pos : Nat) (v : Int) (ext : Bool) (lbP ubP : Option Int) (b : Bits)
-    (hok : intOK' lbP ubP = true) (h1 : -(2 ^ 63) ≤ v) (h2 : v < 2 ^ 63)
-    (h : appendInteger pos v ext lbP ubP = .ok b) : Spec.X691.integer pos v ext lbP ubP = some b :=
-  integer_fwd pos v ext lbP ubP b hok h1 h2 h
+    (hok : intOK' lbP ubP = true) (hlu : ∀ l u, lbP = some l → ubP = some u → l ≤ u)
+    (h1 : -(2 ^ 63) ≤ v) (h2 : v < 2 ^ 63) :
+    appendInteger pos v ext lbP ubP = .ok b ↔ Spec.X691.integer pos v ext lbP ubP = some b :=
+  iff_of_fwd_total (fun b h => integer_fwd pos v ext lbP ubP b hok h1 h2 h)
+    (fun b h => integer_total pos v ext lbP ubP b hok hlu h1 h2 h) b
+
+/-- an out-of-range value of a non-extensible INTEGER is not encoded by the specification (hence refused by the model) -/
+theorem integer_out_of_range (pos : Nat) (v l u : Int) (h : v < l ∨ u < v) :
+    Spec.X691.integer pos v false (some l) (some u) = none := by
+  unfold Spec.X691.integer
+  have : ¬ (l ≤ v ∧ v ≤ u) := by omega
+  simp [this]
 
 example : intOK' (some 0) (some 4294967295) = true ∧
     appendInteger 1 70000 false (some 0) (some 4294967295) = .ok (natToBits 2 2 ++ List.replicate 5 false ++ natToBits 24 70000) := by
@@ -92,21 +122,42 @@ example : intOK' (some 0) (some 4294967295) = true ∧
 
 /-- 14 ENUMERATED (root enumerations numbered from 0) -/
 theorem enumerated_eq (pos n : Nat) (ext : Bool) (lbP ubP : Option Int) (b : Bits) (hok : enumOK' lbP = true)
-    (h : appendEnumerated pos n ext lbP ubP = .ok b) : Spec.X691.enumerated pos n ext lbP ubP = some b :=
-  enumerated_fwd pos n ext lbP ubP b hok h
+    (hub : ∀ u, ubP = some u → u < 65536) :
+    appendEnumerated pos n ext lbP ubP = .ok b ↔ Spec.X691.enumerated pos n ext lbP ubP = some b :=
+  iff_of_fwd_total (fun b h => enumerated_fwd pos n ext lbP ubP b hok h)
+    (fun b h => enumerated_total pos n ext lbP ubP b hub h) b
 
-/-- 16 BIT STRING, fewer than 16384 bits -/
+/-- 11.9.3.5 – 11.9.3.8, every length: with a general (unconstrained) length the fragmentation loop of
+    appendBitString / appendOctetString / appendOpenType (after the repair of F36) writes exactly the 16K-fragments,
+    the lengths and the final length (0 after an exact multiple of 16K) the Recommendation prescribes -/
+theorem length_fragmented_eq (unit : Nat) (hunit : (16384 * unit) % 8 = 0) (pos n : Nat) (payload : Bits)
+    (hpl : payload.length = n * unit) :
+    fragLoop unit (-1) 0 (n / 16384 + 2) pos n payload =
+      .ok (Spec.X691.lengthAndItems unit (n / 16384 + 1) pos n payload) :=
+  fragLoop_unc unit hunit (n / 16384 + 1) pos n payload hpl (Nat.le_refl _)
+
+set_option maxRecDepth 10000000 in
+/-- fragmentation is exercised: a BIT STRING of exactly 16384 bits is one fragment `11000001`, the bits, and the final
+    length 0 — in the model (after the repair of F36) and in the specification -/
+example : appendBitString 0 (List.replicate 2048 0xff) 16384 false none none =
+      .ok ([true, true] ++ natToBits 6 1 ++ List.replicate 16384 true ++ natToBits 8 0) ∧
+    Spec.X691.bitString 0 (List.replicate 16384 true) false none none =
+      some ([true, true] ++ natToBits 6 1 ++ List.replicate 16384 true ++ natToBits 8 0) := by decide +kernel
+
+/-- 16 BIT STRING, every length -/
 theorem bit_string_eq (pos : Nat) (bytes : Bytes) (len : Nat) (ext : Bool) (lbP ubP : Option Int) (b : Bits)
-    (hok : strOK' lbP ubP = true) (hlen : len < 16384)
-    (h : appendBitString pos bytes len ext lbP ubP = .ok b) :
-    Spec.X691.bitString pos ((bytesToBits bytes).take len) ext lbP ubP = some b :=
-  bit_string_fwd pos bytes len ext lbP ubP b hok hlen h
+    (hok : strOK' lbP ubP = true) (hbytes : bytes.length = (len + 7) / 8) :
+    appendBitString pos bytes len ext lbP ubP = .ok b ↔
+      Spec.X691.bitString pos ((bytesToBits bytes).take len) ext lbP ubP = some b :=
+  iff_of_fwd_total (fun b h => bit_string_fwd pos bytes len ext lbP ubP b hok h)
+    (fun b h => bit_string_total pos bytes len ext lbP ubP b hok hbytes h) b
 
-/-- 17 OCTET STRING, fewer than 16384 octets -/
+/-- 17 OCTET STRING, every length -/
 theorem octet_string_eq (pos : Nat) (bytes : Bytes) (ext : Bool) (lbP ubP : Option Int) (b : Bits)
-    (hok : strOK' lbP ubP = true) (hlen : bytes.length < 16384)
-    (h : appendOctetString pos bytes ext lbP ubP = .ok b) : Spec.X691.octetString pos bytes ext lbP ubP = some b :=
-  octet_string_fwd pos bytes ext lbP ubP b hok hlen h
+    (hok : strOK' lbP ubP = true) :
+    appendOctetString pos bytes ext lbP ubP = .ok b ↔ Spec.X691.octetString pos bytes ext lbP ubP = some b :=
+  iff_of_fwd_total (fun b h => octet_string_fwd pos bytes ext lbP ubP b hok h)
+    (fun b h => octet_string_total pos bytes ext lbP ubP b hok h) b
 
 example : strOK' (some 1) (some 150) = true ∧
     appendOctetString 0 [0x41, 0x4d, 0x46] true (some 1) (some 150) =
@@ -114,9 +165,10 @@ example : strOK' (some 1) (some 150) = true ∧
 
 /-- 23.6 index of the chosen alternative among `nAlt ≥ 2` root alternatives -/
 theorem choice_index_eq (pos p nAlt : Nat) (ext : Bool) (ub : Int) (b : Bits)
-    (hub : ub + 1 = (nAlt : Int)) (h2 : 2 ≤ nAlt) (hp1 : 1 ≤ p) (hp : p ≤ nAlt)
-    (h : appendChoiceIndex pos p ext (some ub) = .ok b) : Spec.X691.constrainedWholeNumber pos (p - 1) nAlt = some b :=
-  choice_index_fwd pos p nAlt ext ub b hub h2 hp1 hp h
+    (hub : ub + 1 = (nAlt : Int)) (h2 : 2 ≤ nAlt) (h64 : nAlt ≤ 65536) (hp1 : 1 ≤ p) (hp : p ≤ nAlt) :
+    appendChoiceIndex pos p ext (some ub) = .ok b ↔ Spec.X691.constrainedWholeNumber pos (p - 1) nAlt = some b :=
+  iff_of_fwd_total (fun b h => choice_index_fwd pos p nAlt ext ub b hub h2 hp1 hp h)
+    (fun _ _ => choice_index_total pos p nAlt ext ub hub h2 h64 hp1 hp) b
 
 /-! ### (b) composite types, for every schema that passes `specOK` -/
 
@@ -132,12 +184,19 @@ theorem encode_refuses (env : Env) (hwf : specOK env = true) (fuel pos : Nat) (t
     (hs : Spec.X691.encode env fuel pos ty params v = none) : ∀ bits, encField env fuel pos ty params v ≠ .ok bits :=
   Proofs.AperSpec.encode_refuses env hwf fuel pos ty params v hp hr hs
 
-/-- full strength would add completeness: the model encodes every value the specification encodes (NOT proved;
-    needs in addition that an open type's reference field precedes it, which the model's lookup requires) -/
-def EncodeCompleteStatement : Prop :=
-  ∀ (env : Env), specOK env = true → ∀ (fuel pos : Nat) (ty : Ty) (params : Params) (v : Val) (bits : Bits),
-    tyParamsOK env ty params = true → regular env fuel ty params.openType v = true →
-    Spec.X691.encode env fuel pos ty params v = some bits → encField env fuel pos ty params v = .ok bits
+/-- **the encoder model encodes, with the same bits, whatever X.691 encodes** (completeness) -/
+theorem encode_complete (env : Env) (hwf : specOK env = true) (hwfc : specOKc env = true) (fuel pos : Nat) (ty : Ty)
+    (params : Params) (v : Val) (bits : Bits) (hp : tyParamsOK env ty params = true) (hpc : tyParamsOKc ty params = true)
+    (hr : regular env fuel ty params.openType v = true)
+    (h : Spec.X691.encode env fuel pos ty params v = some bits) : encField env fuel pos ty params v = .ok bits :=
+  Proofs.AperSpec.encode_complete env hwf hwfc fuel pos ty params v bits hp hpc hr h
+
+/-- **full strength**: on regular values the encoder model and the X.691 specification have the same domain and the same bits -/
+theorem encode_iff (env : Env) (hwf : specOK env = true) (hwfc : specOKc env = true) (fuel pos : Nat) (ty : Ty)
+    (params : Params) (v : Val) (bits : Bits) (hp : tyParamsOK env ty params = true) (hpc : tyParamsOKc ty params = true)
+    (hr : regular env fuel ty params.openType v = true) :
+    encField env fuel pos ty params v = .ok bits ↔ Spec.X691.encode env fuel pos ty params v = some bits :=
+  Proofs.AperSpec.encode_iff env hwf hwfc fuel pos ty params v bits hp hpc hr
 
 /-! ### (c) the NGAP schema -/
 
@@ -150,6 +209,27 @@ set_option maxRecDepth 1000000 in
 /-- the parameter string `ngap.Encoder` passes for `NGAPPDU` -/
 theorem pdu_params_ok : tyParamsOK Gen.Ngap.schema (.struct Gen.Ngap.pduId) Gen.Ngap.encoderParams = true := by
   decide +kernel
+
+set_option maxRecDepth 1000000 in
+/-- Table fact, re-decided on every run: what completeness asks of the schema in addition -/
+theorem ngap_schema_specOKc : specOKc Gen.Ngap.schema = true := by decide +kernel
+
+theorem pdu_params_okc : tyParamsOKc (.struct Gen.Ngap.pduId) Gen.Ngap.encoderParams = true := by decide +kernel
+
+/-- **C03 (full strength)**: for a regular PDU value `ngap.Encoder` (model) returns octets exactly when X.691 defines a
+    complete encoding of the value under the schema's constraints, and then returns that encoding -/
+theorem C03_encode_iff (fuel : Nat) (v : Val) (bs : Bytes)
+    (hr : regular Gen.Ngap.schema fuel (.struct Gen.Ngap.pduId) false v = true) :
+    marshal Gen.Ngap.schema fuel (.struct Gen.Ngap.pduId) Gen.Ngap.encoderParams v = .ok bs ↔
+      Spec.X691.encodePdu Gen.Ngap.schema fuel (.struct Gen.Ngap.pduId) Gen.Ngap.encoderParams v = some bs :=
+  marshal_iff Gen.Ngap.schema ngap_schema_specOK ngap_schema_specOKc fuel _ _ v bs pdu_params_ok pdu_params_okc hr
+
+/-- **C03 (conforming values are encoded)** -/
+theorem C03_encodes_conforming (fuel : Nat) (v : Val) (bs : Bytes)
+    (hr : regular Gen.Ngap.schema fuel (.struct Gen.Ngap.pduId) false v = true)
+    (h : Spec.X691.encodePdu Gen.Ngap.schema fuel (.struct Gen.Ngap.pduId) Gen.Ngap.encoderParams v = some bs) :
+    marshal Gen.Ngap.schema fuel (.struct Gen.Ngap.pduId) Gen.Ngap.encoderParams v = .ok bs :=
+  (C03_encode_iff fuel v bs hr).mpr h
 
 /-- **C03 (canonical)**: the octets `ngap.Encoder` (model) returns for a PDU are the complete X.691 ALIGNED PER
     encoding of that PDU under the schema's constraints -/
@@ -183,10 +263,20 @@ theorem C03_container_refuses (fuel id : Nat) (params : Params) (v : Val)
     ∀ bs, marshal Gen.Ngap.schema fuel (.struct id) params v ≠ .ok bs :=
   marshal_refuses Gen.Ngap.schema ngap_schema_specOK fuel _ _ v hp hr hs
 
+theorem C03_container_iff (fuel id : Nat) (params : Params) (v : Val) (bs : Bytes)
+    (hp : tyParamsOK Gen.Ngap.schema (.struct id) params = true) (hpc : tyParamsOKc (.struct id) params = true)
+    (hr : regular Gen.Ngap.schema fuel (.struct id) params.openType v = true) :
+    marshal Gen.Ngap.schema fuel (.struct id) params v = .ok bs ↔
+      Spec.X691.encodePdu Gen.Ngap.schema fuel (.struct id) params v = some bs :=
+  marshal_iff Gen.Ngap.schema ngap_schema_specOK ngap_schema_specOKc fuel _ _ v bs hp hpc hr
+
 /-- the parameter string "valueExt" is inside the domain for every SEQUENCE type (checked here for all struct types
     that are not CHOICEs: `structOK` has nothing to ask of them) -/
 theorem valueExt_params_ok (id : Nat) : tyParamsOK Gen.Ngap.schema (.struct id) { valueExt := true } = true := by
   simp [tyParamsOK, structOK]
+
+theorem valueExt_params_okc (id : Nat) : tyParamsOKc (.struct id) { valueExt := true } = true := by
+  simp [tyParamsOKc]
 
 /-! ### non-vacuity -/
 
@@ -215,6 +305,42 @@ set_option maxRecDepth 1000000 in
     and the specification does not encode it -/
 example : regular Gen.Ngap.schema 40 (.struct Gen.Ngap.pduId) false (ngSetupResponse 256) = true ∧
     Spec.X691.encodePdu Gen.Ngap.schema 40 (.struct Gen.Ngap.pduId) Gen.Ngap.encoderParams (ngSetupResponse 256) = none := by
+  decide +kernel
+
+/-- a GUAMI (struct 11: PLMNIdentity SIZE(3), AMFRegionID SIZE(8), AMFSetID SIZE(10), AMFPointer SIZE(6), no extensions) -/
+def guami (plmn : Bytes) : Val :=
+  .struct [.struct [.octs plmn], .struct [.bits [0x01] 8], .struct [.bits [0x00, 0x40] 10], .struct [.bits [0x04] 6], .nil]
+
+set_option maxRecDepth 1000000 in
+/-- `C03_container_iff` is not vacuous: a regular GUAMI marshalled on its own with "valueExt" (7 octets) -/
+example : regular Gen.Ngap.schema 10 (.struct 11) false (guami [0x02, 0xf8, 0x39]) = true ∧
+    marshal Gen.Ngap.schema 10 (.struct 11) { valueExt := true } (guami [0x02, 0xf8, 0x39]) =
+      .ok [0x00, 0x02, 0xf8, 0x39, 0x01, 0x00, 0x41] := by decide +kernel
+
+set_option maxRecDepth 1000000 in
+/-- refusal, string of illegal size: a 2-octet PLMNIdentity (SIZE(3)) is regular, not encoded by the specification -/
+example : regular Gen.Ngap.schema 10 (.struct 11) false (guami [0x02, 0xf8]) = true ∧
+    Spec.X691.encodePdu Gen.Ngap.schema 10 (.struct 11) { valueExt := true } (guami [0x02, 0xf8]) = none := by
+  decide +kernel
+
+set_option maxRecDepth 1000000 in
+/-- refusal, unset CHOICE: an NGAPPDU with `Present = 0` -/
+example : regular Gen.Ngap.schema 40 (.struct Gen.Ngap.pduId) false (.struct (.int 0 :: alts 3 0 .nil)) = true ∧
+    Spec.X691.encodePdu Gen.Ngap.schema 40 (.struct Gen.Ngap.pduId) Gen.Ngap.encoderParams
+      (.struct (.int 0 :: alts 3 0 .nil)) = none := by decide +kernel
+
+/-- an NG SETUP RESPONSE whose only IE carries id 86 (RelativeAMFCapacity) but the AMFName alternative -/
+def mismatched : Val :=
+  let ie := Val.struct [.struct [.int 86], .struct [.enum 0],
+    .struct (.int 1 :: alts 5 1 (.struct [.str [0x41, 0x4d, 0x46]]))]
+  let msg := Val.struct [.struct [.slice [ie]]]
+  let so := Val.struct [.struct [.int 21], .struct [.enum 0], .struct (.int 7 :: alts 18 7 msg)]
+  .struct (.int 2 :: alts 3 2 so)
+
+set_option maxRecDepth 1000000 in
+/-- refusal, open type not matching its identifier -/
+example : regular Gen.Ngap.schema 40 (.struct Gen.Ngap.pduId) false mismatched = true ∧
+    Spec.X691.encodePdu Gen.Ngap.schema 40 (.struct Gen.Ngap.pduId) Gen.Ngap.encoderParams mismatched = none := by
   decide +kernel
 
 end Stgutg.Props.C03
